@@ -230,11 +230,6 @@ func runC08(c *core.Ctx) {
 					}
 					what := "an integer literal denotes its decimal value, leading zeros or not"
 					expectOut(c, e, "{{ "+lit+" }}", nil, fmt.Sprint(val), "literal-int-spelling", what, nil)
-					if n > 1000 {
-						// how large sums and floats are printed (exponent notation) is not this property's business
-						expectOut(c, e, "{% assign v = "+lit+" %}{{ v }}", nil, fmt.Sprint(val), "literal-int-spelling-arg", what, nil)
-						continue
-					}
 					expectOut(c, e, "{{ 1 | plus: "+lit+" }}|{% assign v = "+lit+" %}{{ v }}", nil, fmt.Sprintf("%d|%d", val+1, val), "literal-int-spelling-arg", what, nil)
 					expectOut(c, e, "{% if "+lit+" == n %}same{% else %}different{% endif %}", map[string]any{"n": val}, "same", "literal-int-spelling-compare", what, nil)
 					if val >= 0 && val < 20 {
